@@ -121,8 +121,19 @@ def main(argv):
             n += 1
         rec.note({"exhaustive_done": not rec.skipped, "exhaustive_cases": n})
 
+    _drive(mod, prop, tier, shard, seed, outfile, examples, deadline, rec, raise_on_new, machine=False)
+    if hasattr(mod, "make_machine"):
+        n = max(2, mod.MACHINE_EXAMPLES[tier] // nshards)
+        _drive(mod, prop, tier, shard, seed, outfile, n, deadline, rec, raise_on_new, machine=True)
+    rec.note({"skipped_after_deadline": rec.skipped})
+
+
+def _drive(mod, prop, tier, shard, seed, outfile, examples, deadline, rec, raise_on_new, machine):
+    import hypothesis
+    from hypothesis import HealthCheck, Phase, settings
+
     remaining = examples
-    rnd = 0
+    rnd = 100 if machine else 0
     while remaining > 0 and time.time() < deadline:
         phases = [Phase.generate] + ([Phase.shrink] if raise_on_new else [])
         st = settings(
@@ -136,15 +147,15 @@ def main(argv):
             stateful_step_count=getattr(mod, "STEP_COUNT", {}).get(tier, 30),
         )
         s = derive_seed(seed, prop, shard, rnd)
-        make = getattr(mod, "make_test", None)
-        test = make(tier, rec, raise_on_new) if make else default_make_test(mod, tier, rec, raise_on_new)
         before = _count_lines(outfile)
         try:
-            if getattr(test, "is_state_machine", False):
+            if machine:
                 from hypothesis.stateful import run_state_machine_as_test
 
-                run_state_machine_as_test(hypothesis.seed(s)(test.machine), settings=st)
+                run_state_machine_as_test(hypothesis.seed(s)(mod.make_machine(tier, rec, raise_on_new)), settings=st)
             else:
+                make = getattr(mod, "make_test", None)
+                test = make(tier, rec, raise_on_new) if make else default_make_test(mod, tier, rec, raise_on_new)
                 hypothesis.seed(s)(settings(st)(test))()
             break  # budget consumed without a new violation
         except AssertionError as e:
@@ -159,7 +170,6 @@ def main(argv):
         used = _count_lines(outfile) - before
         remaining -= max(used, 1)
         rnd += 1
-    rec.note({"skipped_after_deadline": rec.skipped})
 
 
 def _count_lines(p):
